@@ -431,7 +431,7 @@ func discharge(ob *Obligation, tier string, timeoutS int) {
 			}
 		}
 		if len(ground) < len(ob.Hyps) {
-			txt := smtFile(ground, ob.Goal, "", false, "")
+			txt := smtFile(ground, ob.Goal, groundOpts, false, "")
 			f := base + ".ground.smt2"
 			_ = os.WriteFile(f, []byte(txt), 0o644)
 			st, _, secs := runSolverMs(solvers[0], f, 1500)
@@ -445,10 +445,6 @@ func discharge(ob *Obligation, tier string, timeoutS int) {
 				return
 			}
 		}
-	}
-	// stage 2a: the skolemised variant, instances only (see skolem.go) - a ground query, fast when it works
-	if skolemStage(ob, res, base, tier, false) {
-		return
 	}
 	if tier == "quick" {
 		// stage 1: z3-new alone with a short budget
@@ -464,6 +460,10 @@ func discharge(ob *Obligation, tier string, timeoutS int) {
 			return
 		}
 	}
+	// stage 2a: the skolemised variant, instances only (see skolem.go) - a ground query, fast when it works
+	if skolemStage(ob, res, base, tier, false) {
+		return
+	}
 	// stage 2b/2c: the skolemised variant with the consequents of established antecedents, ground first, then with
 	// the quantified hypotheses kept
 	if skolemStage(ob, res, base, tier, true) {
@@ -472,8 +472,14 @@ func discharge(ob *Obligation, tier string, timeoutS int) {
 	// race all
 	ctx, cancel := context.WithCancel(context.Background())
 	defer cancel()
-	ch := make(chan ans, len(solvers))
-	for _, sp := range solvers {
+	racers := solvers
+	if tier == "quick" {
+		// a fourth runner: z3-new with its legacy arithmetic core (faster on the div/mod of pad4 and the byte splits);
+		// not used in the thorough tier, where agreement of two different solvers is asked for
+		racers = append(append([]solverSpec(nil), solvers...), solverSpec{"z3-new-la", solvers[0].argv, groundOpts})
+	}
+	ch := make(chan ans, len(racers))
+	for _, sp := range racers {
 		sp := sp
 		f := write(sp)
 		go func() {
@@ -483,7 +489,7 @@ func discharge(ob *Obligation, tier string, timeoutS int) {
 	}
 	var got []ans
 	unsat := 0
-	for range solvers {
+	for range racers {
 		a := <-ch
 		got = append(got, a)
 		if a.status == "unsat" {
@@ -545,6 +551,10 @@ func discharge(ob *Obligation, tier string, timeoutS int) {
 // quantified hypotheses kept.
 var prepMu sync.Mutex
 
+// groundOpts: for the quantifier-free queries (arrays, linear arithmetic with the div/mod of pad4 and of the big-endian
+// splits) z3's legacy arithmetic core decides in a fraction of a second what the default core does not finish.
+const groundOpts = "(set-option :smt.arith.solver 2)\n"
+
 // stripQuantified returns a quantifier-free consequence of t: quantified sub-formulas in positive positions become
 // true, anything else that contains a quantifier is given up as a whole.
 func stripQuantified(t *Term) *Term {
@@ -605,7 +615,11 @@ func skolemStage(ob *Obligation, res *Result, base, tier string, full bool) bool
 		return true
 	}
 	ask := func(hyps []*Term, file string, budget int, detail string) bool {
-		_ = os.WriteFile(file, []byte(smtFile(hyps, ob.Alt.Goal, "", false, "")), 0o644)
+		opts := ""
+		if strings.Contains(detail, "instances only") {
+			opts = groundOpts
+		}
+		_ = os.WriteFile(file, []byte(smtFile(hyps, ob.Alt.Goal, opts, false, "")), 0o644)
 		st, _, secs := runSolver(context.Background(), solvers[0], file, budget)
 		if st != "unsat" {
 			return false
@@ -619,7 +633,7 @@ func skolemStage(ob *Obligation, res *Result, base, tier string, full bool) bool
 		return done(solvers[0], secs, detail, agree)
 	}
 	if !full {
-		budget := 5
+		budget := 3
 		if tier != "quick" {
 			budget = 15
 		}
@@ -635,14 +649,34 @@ func skolemStage(ob *Obligation, res *Result, base, tier string, full bool) bool
 			defer prepMu.Unlock()
 			saved, savedSk := gensym, skCounter
 			gensym, skCounter = ob.gensymEnd, ob.skEnd
+			tp := time.Now()
 			ob.prepAnte()
+			if os.Getenv("STUNVC_TIMING") != "" {
+				n := 0
+				for _, g := range ob.Alt.Ante {
+					n += len(g.Obs)
+				}
+				fmt.Fprintf(os.Stderr, "timing: prepAnte %.1fs (%d groups, %d sub-goals) %s\n", time.Since(tp).Seconds(), len(ob.Alt.Ante), n, ob.Name)
+			}
 			gensym, skCounter = saved, savedSk
 		})
 	}
 	altHyps := ob.Alt.Hyps
 	nAnte := 0
-	for _, g := range ob.Alt.Ante {
-		if anteHolds(g, base) {
+	// the groups are independent questions: ask them concurrently
+	holds := make([]bool, len(ob.Alt.Ante))
+	var wg sync.WaitGroup
+	for i, g := range ob.Alt.Ante {
+		i, g := i, g
+		wg.Add(1)
+		go func() {
+			defer wg.Done()
+			holds[i] = anteHolds(g, fmt.Sprintf("%s.g%d", base, i))
+		}()
+	}
+	wg.Wait()
+	for i, g := range ob.Alt.Ante {
+		if holds[i] {
 			altHyps = append(append([]*Term(nil), altHyps...), g.Qs...)
 			nAnte++
 		}
@@ -681,7 +715,7 @@ func anteHolds(g *anteGroup, base string) bool {
 					ground = append(ground, h)
 				}
 			}
-			gtxt := smtFile(ground, sub.Goal, "", false, "")
+			gtxt := smtFile(ground, sub.Goal, groundOpts, false, "")
 			h := sha256.Sum256([]byte(gtxt))
 			key := fmt.Sprintf("%x", h[:12])
 			e, _ := anteCache.LoadOrStore(key, &anteEntry{})
@@ -689,10 +723,10 @@ func anteHolds(g *anteGroup, base string) bool {
 			ent.once.Do(func() {
 				f := fmt.Sprintf("%s.ante%d.%s.smt2", base, i, key[:8])
 				_ = os.WriteFile(f+".g", []byte(gtxt), 0o644)
-				st, _, _ := runSolver(context.Background(), solvers[0], f+".g", 3)
+				st, _, _ := runSolver(context.Background(), solvers[0], f+".g", 2)
 				if st != "unsat" {
 					_ = os.WriteFile(f, []byte(smtFile(sub.Hyps, sub.Goal, "", false, "")), 0o644)
-					st, _, _ = runSolver(context.Background(), solvers[0], f, 5)
+					st, _, _ = runSolver(context.Background(), solvers[0], f, 3)
 				}
 				ent.ok = st == "unsat"
 			})
